@@ -54,6 +54,11 @@ pub enum CoverageError {
         missing: Vec<CoveragePattern>,
         truncated: bool,
     },
+    RefutableBinder {
+        term: TermId,
+        missing: Vec<CoveragePattern>,
+        truncated: bool,
+    },
     NonExhaustiveCoMatch {
         computation: CompuId,
         missing: Vec<DtorName>,
@@ -65,12 +70,14 @@ pub enum CoverageError {
 }
 
 impl CoverageError {
-    pub fn computation(&self) -> CompuId {
+    /// The typed term the failure is reported at.
+    pub fn term(&self) -> TermId {
         match self {
             | Self::NonExhaustiveMatch { computation, .. }
             | Self::NonExhaustiveCopatternMatch { computation, .. }
             | Self::NonExhaustiveCoMatch { computation, .. }
-            | Self::DuplicateCoMatchArms { computation, .. } => *computation,
+            | Self::DuplicateCoMatchArms { computation, .. } => (*computation).into(),
+            | Self::RefutableBinder { term, .. } => *term,
         }
     }
 
@@ -102,6 +109,9 @@ impl fmt::Display for CoverageError {
                 missing,
                 *truncated,
             ),
+            | Self::RefutableBinder { missing, truncated, .. } => {
+                Self::write_missing(f, "Refutable pattern in a binder", missing, *truncated)
+            }
             | Self::NonExhaustiveCoMatch { missing, .. } => write!(
                 f,
                 "Non-exhaustive comatch; missing destructor arm(s): {}",
@@ -131,6 +141,25 @@ impl<'a> CoverageChecker<'a> {
             .compus
             .iter()
             .flat_map(|(computation, term)| self.validate_computation(*computation, term))
+            .chain(self.statics.values.iter().flat_map(|(value, term)| self.validate_value(*value, term)))
+            .collect()
+    }
+
+    fn validate_value(&self, value: ValueId, term: &Value) -> Vec<CoverageError> {
+        match term {
+            | Value::Let(Let { binder, .. }) | Value::VAbs(Abs(binder, _)) => {
+                self.validate_binder(value.into(), *binder)
+            }
+            | _ => Vec::new(),
+        }
+    }
+
+    /// A binder outside `match` is a match with a single clause: its pattern alone must cover
+    /// every value it can be handed.
+    fn validate_binder(&self, term: TermId, binder: VPatId) -> Vec<CoverageError> {
+        self.missing_patterns(std::iter::once(binder), None)
+            .map(|(missing, truncated)| CoverageError::RefutableBinder { term, missing, truncated })
+            .into_iter()
             .collect()
     }
 
@@ -140,6 +169,12 @@ impl<'a> CoverageChecker<'a> {
                 self.validate_match(computation, *scrut, arms)
             }
             | Computation::CoMatch(CoMatch { arms }) => self.validate_comatch(computation, arms),
+            | Computation::VAbs(Abs(binder, _))
+            | Computation::Fix(Fix(binder, _))
+            | Computation::Do(Bind { binder, .. })
+            | Computation::Let(Let { binder, .. }) => {
+                self.validate_binder(computation.into(), *binder)
+            }
             | _ => Vec::new(),
         };
         let binder_errors = self
@@ -175,6 +210,22 @@ impl<'a> CoverageChecker<'a> {
         &self, computation: CompuId, binders: impl IntoIterator<Item = VPatId>,
         expected: Option<HeadSpace>, copattern: bool,
     ) -> Vec<CoverageError> {
+        self.missing_patterns(binders, expected)
+            .map(|(missing, truncated)| {
+                if copattern {
+                    CoverageError::NonExhaustiveCopatternMatch { computation, missing, truncated }
+                } else {
+                    CoverageError::NonExhaustiveMatch { computation, missing, truncated }
+                }
+            })
+            .into_iter()
+            .collect()
+    }
+
+    /// Witnesses of the values no binder covers, and whether the list was cut short.
+    fn missing_patterns(
+        &self, binders: impl IntoIterator<Item = VPatId>, expected: Option<HeadSpace>,
+    ) -> Option<(Vec<CoveragePattern>, bool)> {
         let matrix = binders
             .into_iter()
             .map(|binder| vec![MatrixPattern::from_typed(binder, self.statics)])
@@ -191,16 +242,7 @@ impl<'a> CoverageChecker<'a> {
                 pattern
             })
             .collect::<Vec<_>>();
-        (!missing.is_empty())
-            .then_some({
-                if copattern {
-                    CoverageError::NonExhaustiveCopatternMatch { computation, missing, truncated }
-                } else {
-                    CoverageError::NonExhaustiveMatch { computation, missing, truncated }
-                }
-            })
-            .into_iter()
-            .collect()
+        (!missing.is_empty()).then_some((missing, truncated))
     }
 
     fn validate_comatch(
